@@ -15,8 +15,8 @@ class C20(vlib.Check):
     partial = ('absence of data races in compiled code is OBSERVED (ThreadSanitizer over the sampled programs and schedules), '
                'not proved; what is proved is (a) no shared mutable state exists in the headers (source-derived inventory) and '
                '(b) schedule independence of the model; state hidden behind libc calls (locale) is covered only by the whitelist')
-    rule = ('cases = (threads, seed, operations per thread): 2-16 threads, each running a seeded program of 28 operation kinds '
-            '(16 kinds of const members / free functions / conversions / formatting / codecs / stream insertion on 12 shared '
+    rule = ('cases = (threads, seed, operations per thread): 2-16 threads, each running a seeded program of 30 operation kinds '
+            '(18 kinds of const members / free functions / conversions / formatting / codecs / stream insertion on 12 shared '
             'strings, 4 shared char buffers and 4 shared UTF-16 buffers, incl. floating-point renderings of 64 characters and more; 11 kinds on '
             'thread-local strings, streams, buffers, incl. move-construct-then-clear of the moved-from object); '
             'non-trivial = at least 2 threads and 100 operations per thread; distinct = distinct case line')
